@@ -212,6 +212,9 @@ func (rt *Transfer) ReceiveFileList() ([]*File, error) {
 		fmt.Fprint(rt.Env.Stdout, "0 files to consider")
 	}
 	lastFileEntry := new(File)
+	// A sender's “previous” modification time starts out as 0 (the epoch),
+	// so XMIT_SAME_TIME on the first entry means 1970-01-01, not year 1.
+	lastFileEntry.ModTime = time.Unix(0, 0)
 	var fileList []*File
 	for {
 		b, err := rt.Conn.ReadByte()
